@@ -179,8 +179,11 @@ func nativeValidate(rp *replayer, rep *RunReport, fresh []*Candidate, property s
 	for _, s := range rep.Agg.Samples {
 		cases = append(cases, replayCase{Harness: rep.Cfg.Harness, Nondets: s.Model, Params: rep.Cfg.Params})
 	}
+	if rep.Cfg.SkipNativeValidation != "" {
+		cases = nil
+	}
 	if len(cases) > 0 {
-		res, out, err := rp.run(pkg, cases, 120*time.Second)
+		res, out, err := rp.run(pkg, cases, 60*time.Second)
 		if err != nil {
 			rep.ValidMism = append(rep.ValidMism, firstLine(err.Error()))
 			if verbose {
@@ -191,6 +194,11 @@ func nativeValidate(rp *replayer, rep *RunReport, fresh []*Candidate, property s
 				s := rep.Agg.Samples[k]
 				if strings.HasPrefix(r.Status, "assumed-away") {
 					continue // the harness declares this case not reproducible natively
+				}
+				if r.Status == "timeout" && rep.Cfg.NativeTimeoutIsStall {
+					rep.NativeFound = append(rep.NativeFound, &Candidate{Property: property, Harness: rep.Cfg.Harness, Kind: "stall",
+						Label: "stall", Msg: "native run of a path the engine completed does not terminate (test timeout)", Site: "native",
+						Nondets: s.Model, Trace: s.Trace, Params: rep.Cfg.Params})
 				}
 				if r.Status == "assert-fail" || r.Status == "panic" {
 					// the natively compiled real code fails the harness on this input: a violation
